@@ -228,6 +228,45 @@ impl World {
         }
     }
 
+    /// Connect a block streamed, running `between` after the second of its three chunks has
+    /// been delivered and before the last: what a request that arrives mid-stream sees.
+    pub fn connect_streamed_with(&self, chain: &mut SimChain, block: Block, between: impl FnOnce()) -> Outcome<()> {
+        let height = chain.height() + 1;
+        let prev_fh = chain.tip().1;
+        let fh = filter_header_of(&block, &prev_fh);
+        let mut between = Some(between);
+        for (i, (off, c)) in chunks_of(&block).into_iter().enumerate() {
+            let r = self.root_msg(Message::BlockChunk(msgs::BlockChunk { hash: block.block_hash(), offset: off, content: Octets(c) }));
+            if !r.is_ok() {
+                return match r {
+                    Outcome::Err(e) => Outcome::Err(e),
+                    Outcome::Panic(p) => Outcome::Panic(p),
+                    _ => unreachable!(),
+                };
+            }
+            // after the second chunk: the block start has certainly been announced by then
+            if i == 1 {
+                if let Some(f) = between.take() {
+                    f();
+                }
+            }
+        }
+        // the proof is made after the hook: it covers the watches that exist by then
+        let (txids, outpoints) = self.node.get_tracker().get_all_forward_watches();
+        let proof = make_proof(&block, height, &prev_fh, &self.attestors(), &outpoints, &txids);
+        let proof = TxoProof { attestations: proof.attestations, proof: ProofType::ExternalBlock() };
+        let m = msgs::AddBlock { header: Octets(serialize(&block.header)), unspent_proof: Some(msgs::DebugTxoProof(proof)) };
+        match self.root_msg(Message::AddBlock(m)) {
+            Outcome::Ok(Message::AddBlockReply(_)) => {
+                chain.blocks.push((block, fh));
+                Outcome::Ok(())
+            }
+            Outcome::Ok(m) => Outcome::Err(format!("reply:{}", format!("{:?}", m).chars().take(40).collect::<String>())),
+            Outcome::Err(e) => Outcome::Err(e),
+            Outcome::Panic(p) => Outcome::Panic(p),
+        }
+    }
+
     /// Disconnect the tip block through the protocol messages.
     pub fn disconnect(&self, chain: &mut SimChain, delivery: Delivery) -> Outcome<()> {
         let (block, _fh) = match chain.blocks.last() {
